@@ -369,9 +369,13 @@ void AsyncSim::op_add(const run::Op &op) {
 
 void AsyncSim::op_readd(const run::Op &op) {
 	std::vector<HRec *> cand;
-	for (auto &r : recs) if (r->held && r->hold_state == KSI_ASYNC_STATE_ERROR) cand.push_back(r.get());
+	// a returned handle may be submitted again: after an error (documented) and also after a response (addRequest resets the handle)
+	// (not through the HA service: there the sub-requests of the answered round may still be in flight at the other endpoints,
+	// and only the re-adding of failed requests is documented)
+	for (auto &r : recs) if (r->held && (r->hold_state == KSI_ASYNC_STATE_ERROR || (!ha && r->hold_state == KSI_ASYNC_STATE_RESPONSE_RECEIVED))) cand.push_back(r.get());
 	if (cand.empty()) return;
 	HRec &r = *cand[(size_t)op.arg(0) % cand.size()];
+	if (r.hold_state == KSI_ASYNC_STATE_RESPONSE_RECEIVED) K.count("probe.readd_after_response");
 	if (ha) ha_before_add(r);
 	size_t before = outstanding();
 	struct peek_client pc; memset(&pc, 0, sizeof pc);
@@ -1033,6 +1037,20 @@ bool AsyncSim::connwide_cause(const Attempt &a) {
 
 void AsyncSim::check_error(HRec &r, Attempt &a) {
 	std::string why;
+	// "an error and no signature": a handle handed back in the error state carries no response content (also not a stale one
+	// from an earlier round of a re-added handle)
+	if (!svc_ext) {
+		KSI_Signature *sig = nullptr;
+		int gs = KSI_AsyncHandle_getSignature(r.h, &sig);
+		KSI_AggregationResp *resp = nullptr;
+		KSI_AsyncHandle_getAggregationResp(r.h, &resp);
+		if ((gs == KSI_OK && sig) || resp) K.fail("C07", "content-on-failed-handle", r.att.size() > 1 ? "re-added" : "first-round", "handle #%d came back in the error state (0x%x) but getSignature returns 0x%x%s", r.idx, a.err, gs, resp ? " and a response object is attached" : "");
+		KSI_Signature_free(sig);
+	} else {
+		KSI_ExtendResp *resp = nullptr;
+		KSI_AsyncHandle_getExtendResp(r.h, &resp);
+		if (resp) K.fail("C08", "content-on-failed-handle", r.att.size() > 1 ? "re-added" : "first-round", "handle #%d came back in the error state (0x%x) with an extend response attached", r.idx, a.err);
+	}
 	if (a.err == KSI_OK) { K.fail("C13", "error-state-without-code", "run", "handle #%d in ERROR state with error code 0", r.idx); return; }
 	if (!cause_exists(a, a.err, why)) {
 		char key[64]; snprintf(key, sizeof key, "err-0x%x", a.err);
@@ -1195,6 +1213,12 @@ void AsyncSim::quiesce() {
 		bool all_silent = true;
 		for (size_t ei = 0; ei < eps.size(); ei++) if (!eps[ei].silent && !(ha && ei < fresh.sub_full.size() && fresh.sub_full[ei])) all_silent = false;
 		for (auto &f : frames) if (f.bad) stream_corrupted = true; // the framing of a live stream may be lost for good
+		// ... also when a frame that claims more bytes than the server ever sent is still open: everything that follows is swallowed into it
+		for (auto &e : eps) if (!e.http) for (auto &cp : N.conns) if (cp->ep == e.net_ep && !cp->client_closed) {
+			auto it = e.conn_parsed.find(cp->idx);
+			size_t off = it == e.conn_parsed.end() ? 0 : it->second;
+			if (off < cp->s2c_arrived) stream_corrupted = true;
+		}
 		if (!all_silent && !stream_corrupted && snd_to != 0 && rcv_to != 0 && (con_to != 0 || eps[0].http)) K.fail("C14", "no-recovery-after-faults", "fresh-request", "a request added after faults stopped, against honest servers, ended with error 0x%x instead of a response", fresh.att.back().err);
 	} else K.count("probe.fresh_request_ok");
 }
